@@ -12,14 +12,30 @@
  *       out = qmail-remote's standard output; wire = bytes the server received; exit = exit status;
  *       relay = report(0, out) of qmail-rspawn.c
  *   R <wstat> <out> <relay>
+ *   M <dnsret> <cands> <stream> <wk> <wlabel> <out> <wire> <exit> <trace>
+ *       the real main() of qmail-remote (argv: host.example s@a.example r0@b.example) with control files, DNS,
+ *       ipme, tcpto, socket/connect replaced: dnsret = what dns_mxip returns (-3 -2 -1 0 1);
+ *       cands = comma-separated ip(8 hex):pref:isme:tcpto_skip:conn (conn 0 = connects, 1 = refused, 2 = timeout), or '.';
+ *       trace = tcpto_err calls as comma-separated idx:flag, or '.'
  * stdin cases:  S <ip> <helo> <sender> <rcpts,> <msg> <msgerr> <stream> <chunk> <wk> <endmode>   |   R <wstat> <out>
+ *               M <dnsret> <cands> <stream> <wk>
  */
 #include "hcommon.h"
 #include <errno.h>
 #include "alloc.h"
+#include <sys/socket.h>
+#include <netinet/in.h>
+#include <arpa/inet.h>
+static int h_socket(void); static int h_close(int fd);
 #define _exit(x) h_exit(x)
 #define main qmail_remote_main
+#define chdir(x) (0)
+#define socket(a,b,c) h_socket()
+#define close(x) h_close(x)
 #include "qmail-remote.c"
+#undef chdir
+#undef socket
+#undef close
 #undef main
 #include "qmail-rspawn.c"
 #undef _exit
@@ -148,6 +164,70 @@ static void run_r(int wstat, const unsigned char *s, size_t n) {
   fprintf(h_out, "R %d ", wstat); h_hex(s, n); fputc(' ', h_out); put_hex(&relayb); fputc('\n', h_out);
 }
 
+
+/* ---- M mode: what main() needs besides smtp(): control.o dns.o ipme.o tcpto.o timeoutconn.o are excluded ---- */
+#define MAXC 8
+struct cand { unsigned char ip[4]; int pref, isme, skip, conn; };
+static struct cand cands[MAXC]; static int ncand, dnsret; static hbuf trace;
+static int h_socket(void) { return 100; }
+static int h_close(int fd) { return 0; }
+int control_init(void) { return 0; }
+int control_readint(int *i, char *fn) { return 0; }
+int control_rldef(stralloc *sa, char *fn, int flagme, char *def) { return stralloc_copys(sa, "me.example") ? 1 : -1; }
+int control_readfile(stralloc *sa, char *fn, int flagme) { return 0; }
+int control_readline(stralloc *sa, char *fn) { return 0; }
+ipalloc ipme = {0};
+int ipme_init(void) { return 1; }
+static int cand_of(struct ip_address *ip) { for (int i = 0; i < ncand; i++) if (!memcmp(cands[i].ip, ip, 4)) return i; return -1; }
+/* identity is by position for the flags: candidates get distinct addresses from the generator */
+int ipme_is(struct ip_address *ip) { int i = cand_of(ip); return i >= 0 && cands[i].isme; }
+static int fill_ips(ipalloc *ia) {
+  if (!ipalloc_readyplus(ia, 0)) return DNS_MEM;
+  ia->len = 0;
+  if (dnsret < 0) return dnsret;
+  for (int i = 0; i < ncand; i++) { struct ip_mx ix; memcpy(&ix.ip, cands[i].ip, 4); ix.pref = cands[i].pref; if (!ipalloc_append(ia, &ix)) return DNS_MEM; }
+  return dnsret;
+}
+int dns_mxip(ipalloc *ia, stralloc *sa, unsigned long random) { return fill_ips(ia); }
+int dns_ip(ipalloc *ia, stralloc *sa) { return fill_ips(ia); }
+int tcpto(struct ip_address *ip) { int i = cand_of(ip); return i >= 0 && cands[i].skip; }
+void tcpto_err(struct ip_address *ip, int flag) { char b[32]; snprintf(b, sizeof b, "%s%d:%d", trace.n ? "," : "", cand_of(ip), flag); hbuf_add(&trace, b, strlen(b)); }
+int timeoutconn(int s, struct ip_address *ip, unsigned int port, int timeout) {
+  int i = cand_of(ip);
+  if (i >= 0 && cands[i].conn == 0) return 0;
+  errno = (i >= 0 && cands[i].conn == 2) ? ETIMEDOUT : ECONNREFUSED;
+  return -1;
+}
+
+static void run_m(const hbuf *stream, int wk) {
+  static char *argv[] = { "qmail-remote", "host.example", "s@a.example", "r0@b.example", 0 };
+  substdio tin = SUBSTDIO_FDBUF(rd, -1, inbuf, sizeof inbuf);
+  substdio tto = SUBSTDIO_FDBUF(safewrite, -1, smtptobuf, sizeof smtptobuf);
+  substdio tfrom = SUBSTDIO_FDBUF(saferead, -1, smtpfrombuf, sizeof smtpfrombuf);
+  static const char msg[] = "Subject: x\n\nbody\n";
+  ssin = tin; smtpto = tto; smtpfrom = tfrom;
+  subfdoutsmall->op = wrrep; subfdoutsmall->p = 0;
+  flagcritical = 0; smtptext.len = 0; reciplist.len = 0; port = PORT_SMTP;
+  sv_p = stream->p; sv_n = stream->n; sv_pos = 0; sv_chunk = 0; sv_endmode = 0;
+  in_p = (const unsigned char *)msg; in_n = sizeof msg - 1; in_pos = 0; in_err = 0;
+  hbuf_reset(&wire); hbuf_reset(&repb); hbuf_reset(&trace);
+  wcall = 0; wfailat = wk; data_sent = 0; nrcptcmd = 0; strcpy(wlabel, "none");
+  int ex = -1;
+  h_exit_armed = 1;
+  if (setjmp(h_jb) == 0) { qmail_remote_main(4, argv); } else ex = h_exitcode;
+  h_exit_armed = 0;
+  for (int i = 0; i < reciplist.len; i++) { alloc_free(reciplist.sa[i].s); reciplist.sa[i].s = 0; }
+  fprintf(h_out, "M %d ", dnsret);
+  if (!ncand) fputc('.', h_out);
+  for (int i = 0; i < ncand; i++)
+    fprintf(h_out, "%s%02x%02x%02x%02x:%d:%d:%d:%d", i ? "," : "", cands[i].ip[0], cands[i].ip[1], cands[i].ip[2], cands[i].ip[3],
+            cands[i].pref, cands[i].isme, cands[i].skip, cands[i].conn);
+  fputc(' ', h_out); put_hex(stream); fprintf(h_out, " %d %s ", wk, wlabel);
+  put_hex(&repb); fputc(' ', h_out); put_hex(&wire); fprintf(h_out, " %d ", ex);
+  if (trace.n) fwrite(trace.p, 1, trace.n, h_out); else fputc('.', h_out);
+  fputc('\n', h_out);
+}
+
 /* ---- helpers for building cases ---- */
 static void hset(hbuf *b, const char *s) { hbuf_reset(b); hbuf_add(b, s, strlen(s)); }
 static void hcat(hbuf *b, const char *s) { hbuf_add(b, s, strlen(s)); }
@@ -216,7 +296,7 @@ static void enum_wfail(int n, int p, size_t slen) {
     C.stream.n = slen; hcat(&C.stream, rep);
     if (continues(pt, ks[j]) && p < 4 + n) enum_wfail(n, p + 1, C.stream.n);
     else if (mine())
-      for (int wk = 1; wk <= n + 6; wk++) { C.wk = wk; C.endmode = wk & 1; run_s(&C); }
+      for (int wk = 1; wk <= n + 8; wk++) { C.wk = wk; C.endmode = wk & 1; run_s(&C); }
   }
   C.stream.n = slen; C.wk = 0; C.endmode = 0;
 }
@@ -319,6 +399,30 @@ static void enum_reports(int maxlen) {
   }
 }
 
+
+/* main(): every DNS result x every list of up to 3 candidates (pref {0,10} x is-me x tcpto-skip x connect ok/refused/timeout) */
+static void enum_main(void) {
+  static hbuf good, bad, none;
+  hset(&good, "220 a\r\n250 b\r\n250 c\r\n250 d\r\n354 e\r\n250 f\r\n"); hset(&bad, "554 go away\r\n"); hbuf_reset(&none);
+  for (int d = -3; d < 0; d++) { if (!mine()) continue; dnsret = d; ncand = 1; memset(&cands[0], 0, sizeof cands[0]); cands[0].ip[0] = 10; run_m(&good, 0); }
+  for (int len = 0; len <= 3; len++) {
+    uint64_t total = 1; for (int i = 0; i < len; i++) total *= 24;
+    for (uint64_t v0 = 0; v0 < total; v0++) {
+      if (!mine()) continue;
+      uint64_t v = v0; ncand = len;
+      for (int i = 0; i < len; i++) {
+        int x = v % 24; v /= 24;
+        cands[i].ip[0] = 10; cands[i].ip[1] = 0; cands[i].ip[2] = 0; cands[i].ip[3] = 1 + i;
+        cands[i].pref = (x & 1) ? 10 : 0; cands[i].isme = (x >> 1) & 1; cands[i].skip = (x >> 2) & 1; cands[i].conn = x >> 3;
+      }
+      for (dnsret = 0; dnsret <= 1; dnsret++) {
+        run_m(&good, 0);
+        if (len <= 2) { run_m(&bad, 0); run_m(&none, 0); run_m(&good, 1 + (int)(v0 % 6)); }
+      }
+    }
+  }
+}
+
 static void stdin_cases(void) {
   static char line[1 << 20];
   static char f[12][1 << 17];
@@ -339,6 +443,21 @@ static void stdin_cases(void) {
       unhexb(f[4], &C.msg); C.msgerr = msgerr; unhexb(f[5], &C.stream);
       C.chunk = chunk; C.wk = wk; C.endmode = endmode;
       run_s(&C);
+    } else if (line[0] == 'M') {
+      int wk; static hbuf st;
+      if (sscanf(line, "M %d %131000s %131000s %d", &dnsret, f[0], f[1], &wk) != 4) continue;
+      ncand = 0;
+      if (f[0][0] != '.') {
+        char *save = 0;
+        for (char *tk = strtok_r(f[0], ",", &save); tk && ncand < MAXC; tk = strtok_r(0, ",", &save)) {
+          unsigned v[4]; struct cand *c = &cands[ncand];
+          if (sscanf(tk, "%2x%2x%2x%2x:%d:%d:%d:%d", &v[0], &v[1], &v[2], &v[3], &c->pref, &c->isme, &c->skip, &c->conn) != 8) break;
+          for (int i = 0; i < 4; i++) c->ip[i] = v[i];
+          ncand++;
+        }
+      }
+      unhexb(f[1], &st);
+      run_m(&st, wk);
     } else if (line[0] == 'R') {
       int wstat; static hbuf o;
       if (sscanf(line, "R %d %131000s", &wstat, f[0]) != 2) continue;
@@ -375,6 +494,8 @@ int main(int argc, char **argv) {
   base_case(1); enum_bytes(level ? 6 : 5);
   /* (4) spawner report: every output over {r,h,s,K,Z,D,x,NUL} x exit statuses */
   enum_reports(level ? 8 : 6);
+  /* (4b) the real main(): DNS result, MX choice, tcpto, connect loop */
+  enum_main();
   /* (5) seeded random conversations */
   h_seed(seed * 1000003ull + g_shard);
   for (int r = 0; r < nrandom; r++) { if ((r % g_nshards) != g_shard) continue; random_case(); }
